@@ -310,5 +310,6 @@ def main(tier):
     run.assumptions += ["writeable's integer write_to and core::fmt write the digits they are given"]
     from ..rules import siblings
     siblings.check_offset_rounding(run, fx)
+    siblings.check_offset_minutes_by_value(run, fx)
     check_utc_offset_components(run, fx)
     return run.finish(EXPLANATION)
